@@ -273,7 +273,19 @@ def layer_b_case(arg):
     dflags = rng.choice([[], ['--write-all'], ['--no-per-constraint'], ['--index'], ['--int'], ['--no-output-fields'],
                          ['--write-all', '--per-constraint']])
     outp = os.path.join(d, 'det.csv')
-    rc, out, err = cli(['detect'] + [f_ for f_ in flags if f_ not in ('-f', '-a', '-7')] + dflags + [data2, tdda, outp], d)
+    # the output goes to a file, or - documented - to standard output when the name is '-' or left out
+    to_stdout = rng.choice([None, None, None, '-', ''])
+    tail = [data2, tdda] + ([outp] if to_stdout is None else ['-'] if to_stdout == '-' else [])
+    rc, out, err = cli(['detect'] + [f_ for f_ in flags if f_ not in ('-f', '-a', '-7')] + dflags + tail, d)
+    if to_stdout is not None:
+        if rc != 0:
+            problems.append('detect %s to standard output ended with status %d: %s' % (dflags, rc, err[-300:]))
+        with open(outp, 'w', encoding='utf-8') as f_:
+            f_.write(out.rstrip('\n') + '\n' if out.strip() else '')      # (print() adds one more line end)
+        if not out.strip():
+            os.remove(outp)
+        if os.path.exists(os.path.join(d, '-')):
+            problems.append("detect to standard output left a file called '-' behind")
     dk = dict(kw)
     if '--write-all' in dflags:
         dk['write_all'] = True
